@@ -56,6 +56,10 @@ func (c *EventCache) Add(event *Event) (added bool) {
 		return false
 	}
 
+	if event.EventType() == EventTypeEphemeral {
+		return true
+	}
+
 	if added = c.add(eventKey, event); !added {
 		return
 	}
